@@ -9,7 +9,7 @@ from gridrv import instrument
 PROP = "C07"
 TITLE = "A molecular grid is the weighted concatenation of its atomic grids"
 REQUIRED_HOOKS = ["MolGrid.__init__"]
-REQUIRED_FAMILIES = ["direct-store-pair", "from_size", "from_preset", "from_pruned", "end-to-end-default-rgrid", "end-to-end-shellcount-presets"]
+REQUIRED_FAMILIES = ["direct-store-pair", "from_size", "from_preset", "from_pruned", "end-to-end-default-rgrid", "end-to-end-shellcount-presets", "end-to-end-element-sweep"]
 BUDGET = {"quick": 400, "thorough": 3600}
 RULE = (
     "Post-condition attached to MolGrid.__init__ (every molecular grid built anywhere): points == concatenation of the "
@@ -50,6 +50,14 @@ def cases(tier, seed):
             out.append((fam, {"preset": p, "k": k}, heavy))
         for k in range(1 if q else 8):
             out.append(("end-to-end-default-rgrid" if p not in PRESETS_COUNT else "end-to-end-shellcount-presets", {"preset": p, "k": 1000 + k, "heavy_elements": True}, heavy * 2))
+    # every element that has a default radial grid, single atom, both ends of the exponent range (a slip in one row of
+    # the default radial-grid table only shows for that element, and mostly for diffuse or for tight functions)
+    presets_cycle = ["coarse", "medium", "fine"] if q else ["coarse", "medium", "fine", "veryfine"]
+    for i, z in enumerate(_elements_with_default_rgrid()):
+        for alpha in (0.3, 30.0):
+            for p in ([presets_cycle[(i + seed) % len(presets_cycle)]] if q else presets_cycle):
+                if _tabulated(p, z):
+                    out.append(("end-to-end-element-sweep", {"Z": z, "alpha": alpha, "preset": p}, 2.0))
     return out
 
 
@@ -337,6 +345,16 @@ def run_case(ctx, family, params):
             ctx.hit("MolGrid.from_pruned")
             ref = MolGrid(atnums, hand, aim if aim is not None else BeckeWeights(order=3), store=False)
             _same_grid(ctx, "constructor-equals-hand-built", f"from_pruned[{['d_int', 'd_lists', 's_lists', 's_int'][mode]},{['None', 'OneDGrid', 'list', 'dict'][rform]}]", m, ref, 1e-12)
+    elif family == "end-to-end-element-sweep":
+        z, alpha, preset = int(params["Z"]), float(params["alpha"]), params["preset"]
+        c = rng.uniform(-1, 1, (1, 3))
+        with ctx.guard("end-to-end-charge-1pct", f"{preset}:element-sweep"):
+            m = MolGrid.from_preset(np.array([z]), c, preset)
+            ctx.hit("MolGrid.from_preset")
+            rho = (alpha / np.pi) ** 1.5 * np.exp(-alpha * np.sum((m.points - c[0]) ** 2, axis=1))
+            err = abs(float(m.integrate(rho)) - 1.0)
+            ctx.case_note("rel_err", err)
+            ctx.check("end-to-end-charge-1pct", f"{preset}:element-sweep", err, 1e-2, sig=f"Z={z}", detail={"Z": z, "alpha": alpha, "npoints": int(m.size)})
     elif family in ("end-to-end-default-rgrid", "end-to-end-shellcount-presets"):
         preset = params["preset"]
         if params.get("heavy_elements"):
